@@ -1224,11 +1224,20 @@ func vC19Call(group int, data []byte, buf *Buffer, dst []byte, h *vHandler) bool
 	return e1 == nil && e2 == nil
 }
 
-func vH_C19(data []byte, group int) {
+func vH_C19(data []byte, group int, mid []byte) {
 	buf := &Buffer{}
 	dst := make([]byte, 0, len(data)+4)
 	warm := &vHandler{whole: data, mode: 4}
 	vC19Call(group, data, buf, dst, warm)
+	if len(mid) > 0 {
+		// any other use of the same Buffer in between (possibly failing) must not un-warm it
+		SkipValue(mid, buf)
+		Valid(mid, buf)
+		SkipValueFast(mid, buf)
+		hm := &vHandler{whole: mid, mode: 4}
+		HandleArrayValues(mid, hm, buf)
+		HandleObjectValues(mid, hm, buf)
+	}
 	h := &vHandler{whole: data}
 	vReach("C19.warmed")
 	vAllocWatch(true)
@@ -1259,7 +1268,7 @@ func vH_C19_floatbattery() {
 		_, err2 := DecodeFloat64(d, &f)
 		vAllocWatch(false)
 		if err == nil && err2 == nil {
-			vAssert(vAllocs() == 0, "C19.float-battery "+lit[:8])
+			vAssert(vAllocs() == 0, "C19.float-battery")
 		}
 	}
 }
